@@ -115,11 +115,8 @@ def inline_bool_locals(fn):
     for n in ast.walk(fn):
         if isinstance(n, ast.Name) and isinstance(n.ctx, (ast.Store, ast.Del)):
             stores[n.id] = stores.get(n.id, 0) + 1
-    if any(isinstance(n, ast.Name) and isinstance(n.ctx, ast.Store) and n.id in params for n in ast.walk(fn)
-           if not isinstance(n, ast.arg)):
-        stored_params = {n.id for n in ast.walk(fn) if isinstance(n, ast.Name) and isinstance(n.ctx, ast.Store) and n.id in params}
-    else:
-        stored_params = set()
+    stored_params = {n.id for n in ast.walk(fn) if isinstance(n, ast.Name) and isinstance(n.ctx, (ast.Store, ast.Del))
+                     and n.id in params}
     attr_stores = {_src(n) for n in ast.walk(fn) if isinstance(n, ast.Attribute) and isinstance(n.ctx, (ast.Store, ast.Del))}
     alias = {}
     for s in fn.body:
@@ -231,6 +228,114 @@ def generate():
         if len(thr) != 1 or subs != thr or ncmp != 3:
             raise Unsupported("_format_list: thresholds %r / subtractions %r / %d comparisons" % (thr, subs, ncmp))
         fold = thr.pop()
+
+        # ---- _format_list, statement level: the loop's tests and counter updates are REGENERATED (`Exc.formatListLoop` is
+        #      defined through them, `C13.format_list_loop_refines` proves it equal to `foldFrames`)
+        fl_top = [x for x in fl.body if not isinstance(x, (ast.FunctionDef, ast.Expr)) or (
+            isinstance(x, ast.Expr) and not isinstance(x.value, ast.Constant))]
+        loops = [i for i, x in enumerate(fl_top) if isinstance(x, ast.For)]
+        if len(loops) != 1 or fl_top[loops[0]].orelse:
+            raise Unsupported("_format_list: expected exactly one top-level for loop")
+        lp = fl_top[loops[0]]
+        if not (isinstance(lp.target, ast.Tuple) and len(lp.target.elts) == 2 and isinstance(lp.target.elts[0], ast.Starred)
+                and isinstance(lp.target.elts[0].value, ast.Name) and isinstance(lp.target.elts[1], ast.Name)):
+            raise Unsupported("_format_list: loop target is not `*source, line`: " + _src(lp.target))
+        v_src = lp.target.elts[0].value.id
+        branch = [x for x in lp.body if isinstance(x, ast.If) and x.orelse]
+        if len(branch) != 1:
+            raise Unsupported("_format_list: expected one if/else in the loop body")
+        br = branch[0]
+        if not (isinstance(br.test, ast.Compare) and len(br.test.ops) == 1 and isinstance(br.test.left, ast.Name)
+                and isinstance(br.test.comparators[0], ast.Name)
+                and v_src in (br.test.left.id, br.test.comparators[0].id)):
+            raise Unsupported("_format_list: the if/else does not compare the frame with the previous one: " + _src(br.test))
+        v_last = br.test.comparators[0].id if br.test.left.id == v_src else br.test.left.id
+
+        class _Same(ast.NodeTransformer):
+            """`source == last_source` -> the boolean name same__, `!=` -> not same__"""
+            def visit_Compare(self, node):
+                self.generic_visit(node)
+                if len(node.ops) == 1 and isinstance(node.left, ast.Name) and isinstance(node.comparators[0], ast.Name) \
+                        and {node.left.id, node.comparators[0].id} == {v_src, v_last}:
+                    nm = ast.Name(id="same__", ctx=ast.Load())
+                    if isinstance(node.ops[0], ast.Eq):
+                        return nm
+                    if isinstance(node.ops[0], ast.NotEq):
+                        return ast.UnaryOp(op=ast.Not(), operand=nm)
+                return node
+
+        import copy as _copy
+
+        def incr_of(st):
+            """`c += k` or `c = c + k` -> (c, node of the new value)"""
+            if isinstance(st, ast.AugAssign) and isinstance(st.target, ast.Name) and isinstance(st.op, ast.Add):
+                return st.target.id, ast.BinOp(left=ast.Name(id=st.target.id, ctx=ast.Load()), op=ast.Add(), right=st.value)
+            if isinstance(st, ast.Assign) and len(st.targets) == 1 and isinstance(st.targets[0], ast.Name):
+                return st.targets[0].id, st.value
+            raise Unsupported("_format_list: counter update " + _src(st))
+
+        # "same" side of the if/else: with `==` it is the body, with `!=` the else branch
+        same_body, diff_body = (br.body, br.orelse) if isinstance(br.test.ops[0], ast.Eq) else (br.orelse, br.body)
+        if not isinstance(br.test.ops[0], (ast.Eq, ast.NotEq)):
+            raise Unsupported("_format_list: comparison operator of the if/else")
+        if len(same_body) != 2 or len(diff_body) != 1:
+            raise Unsupported("_format_list: branches of the if/else have %d / %d statements" % (len(same_body), len(diff_body)))
+        v_cnt, step_val = incr_of(same_body[0])
+        cont = same_body[1]
+        if not (isinstance(cont, ast.If) and not cont.orelse and len(cont.body) == 1 and isinstance(cont.body[0], ast.Continue)):
+            raise Unsupported("_format_list: `if count > k: continue` shape: " + _src(cont))
+        v_cnt2, restart_val = incr_of(diff_body[0])
+        if v_cnt2 != v_cnt:
+            raise Unsupported("_format_list: the two branches update different counters")
+        inits = [x for x in fl_top[:loops[0]] if isinstance(x, ast.Assign) and _src(x.targets[0]) == v_cnt]
+        if len(inits) != 1:
+            raise Unsupported("_format_list: initial value of the counter")
+        flenv = {"same__": ("same", "bool"), v_cnt: ("count", "int")}
+
+        def fl_kern(node, want, what):
+            try:
+                t, ty = Tr(flenv).tr(_Same().visit(_copy.deepcopy(node)))
+            except Unsupported as e:
+                raise Unsupported("_format_list: %s `%s` is outside the translated subset (%s)" % (what, _src(node), e))
+            if ty != want:
+                raise Unsupported("_format_list: %s has type %s" % (what, ty))
+            return t
+
+        def skip_append(st, what):
+            """`<list>.append(<f>(<int expression>))` -> the expression"""
+            if isinstance(st, ast.Expr) and isinstance(st.value, ast.Call) and isinstance(st.value.func, ast.Attribute) \
+                    and st.value.func.attr == "append" and len(st.value.args) == 1 and isinstance(st.value.args[0], ast.Call) \
+                    and len(st.value.args[0].args) == 1 and not isinstance(st.value.args[0].args[0], ast.Starred):
+                return st.value.args[0].args[0], _src(st.value.func.value), _src(st.value.args[0].func)
+            raise Unsupported("_format_list: %s is not `result.append(skip_message(<expr>))`: %s" % (what, _src(st)))
+
+        pos_br = lp.body.index(br)
+        flush = [x for x in lp.body[:pos_br] if isinstance(x, ast.If)]
+        if len(flush) != 1 or flush[0].orelse or len(flush[0].body) != 1 or len(lp.body[:pos_br]) != 1:
+            raise Unsupported("_format_list: statements before the if/else in the loop")
+        flush_arg, res_name, skip_fn = skip_append(flush[0].body[0], "the flush inside the loop")
+        after = lp.body[pos_br + 1:]
+        if len(after) != 2 or not (isinstance(after[0], ast.Expr) and isinstance(after[0].value, ast.Call)
+                                   and _src(after[0].value.func) == res_name + ".append") \
+                or _src(after[1]) != "%s = %s" % (v_last, v_src):
+            raise Unsupported("_format_list: end of the loop body: " + " / ".join(_src(x) for x in after))
+        tail = [x for x in fl_top[loops[0] + 1:] if isinstance(x, ast.If)]
+        if len(tail) != 1 or tail[0].orelse or len(tail[0].body) != 1:
+            raise Unsupported("_format_list: the flush after the loop")
+        final_arg, res2, skip2 = skip_append(tail[0].body[0], "the flush after the loop")
+        if (res2, skip2) != (res_name, skip_fn):
+            raise Unsupported("_format_list: the two flushes append differently")
+        fl_defs = [
+            ("flInit", "", "Int", fl_kern(inits[0].value, "int", "initial counter")),
+            ("flFlushTest", "(same : Bool) (count : Int)", "Bool", fl_kern(flush[0].test, "bool", "flush test")),
+            ("flFlushArg", "(count : Int)", "Int", fl_kern(flush_arg, "int", "flush argument")),
+            ("flSameTest", "(same : Bool)", "Bool", "same"),
+            ("flStep", "(count : Int)", "Int", fl_kern(step_val, "int", "counter step")),
+            ("flContinueTest", "(count : Int)", "Bool", fl_kern(cont.test, "bool", "continue test")),
+            ("flRestart", "(count : Int)", "Int", fl_kern(restart_val, "int", "counter restart")),
+            ("flFinalTest", "(count : Int)", "Bool", fl_kern(tail[0].test, "bool", "final test")),
+            ("flFinalArg", "(count : Int)", "Int", fl_kern(final_arg, "int", "final argument")),
+        ]
 
         # ---- _extract_frames: insertion at the front, suffix limit, diagnose guard
         ef = find_func(tree, "_extract_frames", CLS)
@@ -500,6 +605,79 @@ def generate():
         if "final_source" not in app_src or "': '" not in app_src or "error_message" not in app_src:
             raise Unsupported("_format_exception: what is appended for a message-less AssertionError: " + app_src)
 
+        # ---- copying: a handler's formatter re-created by copy.deepcopy / pickle must get the same options.  Without copy
+        #      hooks the instance dictionary is copied (identity); a `__reduce__` returning `(ExceptionFormatter, args)` is
+        #      read as a re-construction and the modelled options are traced through `__init__`'s `self._x = x` stores
+        hooks = ("__reduce__", "__reduce_ex__", "__getstate__", "__setstate__", "__copy__", "__deepcopy__", "__getnewargs__",
+                 "__getnewargs_ex__", "__slots__", "__new__")
+        defined = [n.name for n in cls_node.body if isinstance(n, ast.FunctionDef) and n.name in hooks]
+        defined += [t.id for n in cls_node.body if isinstance(n, ast.Assign) for t in n.targets
+                    if isinstance(t, ast.Name) and t.id in hooks]
+        ctor = [a.arg for a in init.args.args[1:]]
+        if init.args.vararg or init.args.kwonlyargs or init.args.kwarg:
+            raise Unsupported("ExceptionFormatter.__init__ signature")
+        modelled = ["backtrace", "diagnose", "colorize", "max_length"]
+        lean_of = {"backtrace": "backtrace", "diagnose": "diagnose", "colorize": "colorize", "max_length": "maxLength"}
+        stored = {}
+        for st_ in init.body:
+            if isinstance(st_, ast.Assign) and len(st_.targets) == 1 and isinstance(st_.targets[0], ast.Attribute) \
+                    and _src(st_.targets[0].value) == "self" and isinstance(st_.value, ast.Name) and st_.value.id in ctor:
+                stored[st_.targets[0].attr] = st_.value.id
+        for p_ in modelled:
+            if p_ not in ctor or ("_" + p_) not in stored or stored["_" + p_] != p_:
+                raise Unsupported("ExceptionFormatter.__init__ does not store %s unchanged as self._%s" % (p_, p_))
+        rebuilt = {p_: lean_of[p_] for p_ in modelled}
+        if defined == ["__reduce__"]:
+            red = inline_aliases(find_func(cls_node, "__reduce__"))
+            loc = {}
+            for st_ in red.body[:-1]:
+                if isinstance(st_, ast.Expr) and isinstance(st_.value, ast.Constant):
+                    continue
+                if isinstance(st_, ast.Assign) and len(st_.targets) == 1 and isinstance(st_.targets[0], ast.Name) \
+                        and isinstance(st_.value, ast.Tuple):
+                    loc[st_.targets[0].id] = st_.value
+                else:
+                    raise Unsupported("ExceptionFormatter.__reduce__: statement " + _src(st_))
+            rv = red.body[-1]
+            if not (isinstance(rv, ast.Return) and isinstance(rv.value, ast.Tuple) and len(rv.value.elts) == 2
+                    and _src(rv.value.elts[0]) in (CLS, "type(self)", "self.__class__")):
+                raise Unsupported("ExceptionFormatter.__reduce__ does not return (ExceptionFormatter, args)")
+            argt = rv.value.elts[1]
+            if isinstance(argt, ast.Name) and argt.id in loc:
+                argt = loc[argt.id]
+            if not isinstance(argt, ast.Tuple) or any(isinstance(e_, ast.Starred) for e_ in argt.elts):
+                raise Unsupported("ExceptionFormatter.__reduce__: argument tuple")
+            for p_ in modelled:
+                i_ = ctor.index(p_)
+                if i_ >= len(argt.elts):
+                    dflt = defaults.get(p_)
+                    if isinstance(dflt, ast.Constant) and isinstance(dflt.value, bool):
+                        rebuilt[p_] = "true" if dflt.value else "false"
+                    elif isinstance(dflt, ast.Constant) and isinstance(dflt.value, int):
+                        rebuilt[p_] = str(dflt.value)
+                    else:
+                        raise Unsupported("ExceptionFormatter.__reduce__ leaves %s to a default that is not a literal" % p_)
+                    continue
+                el = argt.elts[i_]
+                if isinstance(el, ast.Attribute) and _src(el.value) == "self" and stored.get(el.attr) in modelled \
+                        and (stored[el.attr] == "max_length") == (p_ == "max_length"):
+                    rebuilt[p_] = lean_of[stored[el.attr]]
+                else:
+                    raise Unsupported("ExceptionFormatter.__reduce__ passes `%s` for %s" % (_src(el), p_))
+        elif defined:
+            raise Unsupported("ExceptionFormatter defines copy hooks %r (only a re-constructing __reduce__ is understood)" % defined)
+        htree, _ = parse_module("_handler.py")
+        for hook in ("__getstate__", "__setstate__"):
+            hf_ = find_func(htree, hook, "Handler")
+            touched = [n for n in ast.walk(hf_) if (isinstance(n, ast.Constant) and n.value == "_exception_formatter")
+                       or (isinstance(n, ast.Attribute) and n.attr == "_exception_formatter")]
+            if touched:
+                raise Unsupported("Handler.%s touches _exception_formatter" % hook)
+        gs = [_src(x) for x in find_func(htree, "__getstate__", "Handler").body]
+        ss = [_src(x) for x in find_func(htree, "__setstate__", "Handler").body]
+        if "state = self.__dict__.copy()" not in gs or gs[-1] != "return state" or "self.__dict__.update(state)" not in ss:
+            raise Unsupported("Handler.__getstate__/__setstate__ do not carry the instance dictionary")
+
         # ---- the formatter is built with the default max_length
         ltree, _ = parse_module("_logger.py")
         built = [n for n in ast.walk(ltree) if isinstance(n, ast.Call) and _src(n.func) == "ExceptionFormatter"]
@@ -560,6 +738,14 @@ def generate():
         body += "def closingGuard (diagnose framesNonEmpty : Bool) : Bool := %s\n" % k_cguard
         body += "/-- the `if` that appends `\": \" + final_source` to the closing line -/\n"
         body += "def assertAppend (isAssertion finalSourceNonEmpty hasMessage : Bool) : Bool := %s\n" % k_append
+        body += "/-- the (backtrace, diagnose, colorize, max_length) a formatter gets when its handler is copied (copy.deepcopy,\n"
+        body += "    pickle): %s -/\n" % ("no copy hook on ExceptionFormatter, Handler state = its instance dictionary" if not defined
+                                       else "ExceptionFormatter.__reduce__ re-constructs it from " + _src(argt))
+        body += "def rebuild (backtrace diagnose colorize : Bool) (maxLength : Nat) : Bool × Bool × Bool × Nat := (%s, %s, %s, %s)\n" % (
+            rebuilt["backtrace"], rebuilt["diagnose"], rebuilt["colorize"], rebuilt["max_length"])
+        body += "/-- `_format_list`: the loop's tests and counter updates (`same` = the frame equals the previous one) -/\n"
+        for nm, args, ty, term in fl_defs:
+            body += "def %s %s : %s := %s\n" % (nm, args, ty, term)
         body += "/-- `_extract_frames`: `if <test>: return frames, final_source` (nothing is shown) -/\n"
         body += "def earlyReturn (tbNone limitNone : Bool) (limit : Int) : Bool := %s\n" % k_early
         body += "/-- the test of the `if` around the upward walk through `f_back` -/\n"
